@@ -515,7 +515,7 @@ func init() {
 	})
 }
 
-var runStubs = []string{"context.WithCancel (opaque child context + recorded cancel func)", "context.Background (opaque)", "sync/atomic.LoadInt32/StoreInt32 (plain accesses tagged atomic)", "go statement: watcher goroutine recorded, not run (cancellation never happens in C08)", "errors.New (opaque distinct object)", "log.Printf"}
+var runStubs = []string{"context.WithCancel (opaque child context + recorded cancel func)", "context.Background (opaque)", "sync/atomic.LoadInt32/StoreInt32 (accesses tagged atomic)", "go statement: the watcher goroutine is a coroutine that stays blocked (cancellation never happens in C08) until Run's deferred cancel releases it", "errors.New (opaque distinct object)", "log.Printf"}
 
 func init() {
 	register(&PropCheck{
@@ -574,8 +574,8 @@ func init() {
 			return jobs
 		},
 		Bounds: map[string]interface{}{"programs": "all programs of <= 3 (thorough 4) instructions from {HALT, NOP, JP nn, LD BC,nn, INC A} with arbitrary operands and start state", "cancellation_instants": "before the call, or while instruction 0..k-1 is fetched; never = C08", "schedules": "the watcher goroutine runs to completion at the moment its context is cancelled (sequential model); every later schedule equals a later cancellation instant; weak-memory reorderings are not explored here (see the happens-before obligations)"},
-		Assume: []string{"context contract: Done() is closed after cancel() or parent cancellation, Err() is then non-nil", "wall-clock latency of the Go scheduler, runtime goroutine accounting and the context implementation itself are outside the claim: 'bounded delay' is decided as 'at most the instruction in flight completes once the flag is published'", "race-freedom: decided as event order (error written before the atomic flag store, flag read by an atomic load, cancel on every return path), not by executing interleavings"},
-		Stubs:  runStubs,
+		Assume: []string{"context contract: Done() is closed after cancel() or parent cancellation, Err() is then non-nil; a deadline context's deadline does not pass within the bound", "wall-clock latency of the Go scheduler, runtime goroutine accounting and the context implementation itself are outside the claim: 'bounded delay' is decided as 'no instruction starts once the flag is published'", "race-freedom: vector clocks over the executed interleaving (go edge, atomic store->load, cancel->Done, channel send->receive, mutex, close); schedules other than 'the watcher runs as soon as it is runnable' are covered only as later cancellation instants"},
+		Stubs:  []string{"context.WithCancel/WithTimeout/WithDeadline/Background (opaque contexts with a cancellation tree)", "ctx.Done()/Err()/Deadline()", "sync/atomic Load/Store (accesses tagged atomic, release/acquire)", "sync.Mutex (release/acquire)", "go statement: coroutine", "channels, select, close (modelled)", "time.AfterFunc/NewTimer/Stop (armed, never fires within the bound)", "errors.New", "log.Printf"},
 		Rule:   "one job per cancellation instant; every path is one program shape; obligations: returned error is the context's, promptness, final state equals a whole number of Steps of a twin, watcher finished, event order",
 	})
 }
